@@ -374,7 +374,26 @@ def run_C18(run):
                       "gen_C18.py; coqc (Gen_C18_ladders, A_C18_defs, P_C18_ladders, P_C18_w8, P_C18_w16_0..7, P_C18_sqrt_0..3, P_C18_general, Properties_C18); tools/corr/impl_C18 | coq/extract/corr_model")
 
 
-TABLE = {"C18": run_C18, "C05": run_C05, "C07": run_C07, "C01": run_C01, "C13": run_C13, "C09": run_C09, "C04": run_C04, "C02": run_C02, "C10": run_C10, "C08": run_C08, "C17": run_C17, "C12": run_C12}
+# ------------------------------------------------------------------------------------------ C14
+def run_C14(run):
+    stats = par([lambda: run.build_trace("tr_C14", "Gen_C14", [])])
+    trace_cov(run, stats)
+    gens = [os.path.join(run.dir, "Gen_C14.v")] if os.path.exists(os.path.join(run.dir, "Gen_C14.v")) else []
+    run.prove(gens, [], ["C14/P_C14_general.v", "C14/P_C14_eps.v"], "C14/Properties_C14.v", timeout=900)
+    run.run_corr("impl_C14.cpp", [run.seed, run.tier])
+    fails = oracle_sweep(run, "C14", [("all", ["-pthread"])], run.tier, opt="-O1")
+    run.fails = run.triage(fails)
+    run.assumptions = ["std::nextafter is the C library's: the model's `nextafter` is the IEEE-754 function; it is compared on every run with libm (through nextFloat/prevFloat) and with the bundled Sun implementation in scalar_ulp.inl by the correspondence check, and over every float pattern by the oracle (thorough tier: all 2^32; quick: every 1021st plus all binade boundaries)",
+                       "comparisons with an epsilon: the theorems are over the reals (the subtraction x - y is exact); in floating point fl(x - y) may round onto epsilon, so 'exactly when |x - y| <= epsilon' holds up to that one rounding (monotonicity of rounding gives: |x - y| <= epsilon implies true); the oracle compares with |fl(x - y)| <= epsilon",
+                       "the matrix and quaternion epsilon overloads and the scalar float/double specialisations of epsilonEqual are traced or compared by the oracle only (the 2x2 matrix theorem checks in 4.5 minutes and is left out of the quick tier)",
+                       "NaN and infinite arguments, nextFloat(+max), prevFloat(-max) and distances that do not fit the result type are outside the statements"]
+    run.samples.append("correspondence / oracle values: +-0, smallest and largest subnormals, smallest normals, both sides of random binade boundaries, +-max and below, 1.0 + k ulp, random finite patterns, both signs; second operands 0..69 ranks away in either direction (crossing zero), x and -x, independent values; MaxULPs in -4..75 and exactly the distance; epsilon on a 1/64 grid with |x - y| == epsilon hit on purpose, negative epsilon, generic values")
+    return run.finish(TRUST_H + TRUST_COMMON[2:3] + ["oracle_C14.cpp: integer arithmetic on the IEEE total order (violation search)"],
+                      "theorems: every format (mb, w), instantiated for float and double, every finite pattern, every step count / MaxULPs that fits; epsilon comparisons: every real x, y, epsilon",
+                      "tools/trace (tr_C14); coqc (Gen_C14, P_C14_general, P_C14_eps, Properties_C14); tools/corr/impl_C14 | coq/extract/corr_model")
+
+
+TABLE = {"C14": run_C14, "C18": run_C18, "C05": run_C05, "C07": run_C07, "C01": run_C01, "C13": run_C13, "C09": run_C09, "C04": run_C04, "C02": run_C02, "C10": run_C10, "C08": run_C08, "C17": run_C17, "C12": run_C12}
 
 
 def replay(pid, path):
